@@ -130,21 +130,21 @@ WorkerCount(c) ==
 \* ---------------------------------------------------------------- parallel sampling (OptGP)
 \* call = [P, n, seed, thin, ds, raises, rows : Seq(Seq(Int)) in 10^-8 fixed point, digest : STRING,
 \*         workers : events chain.begin / chain.end with task = <<idx>> and vals = <<seed>>]
-SampleRowCount(c) == Len(c.rows) = c.P * ((c.n + c.P - 1) \div c.P)
+SampleRowCount(c) == Len(c.rows) = c.rounds * c.P * ((c.n + c.P - 1) \div c.P)
 SampleRowsFeasible(c) == \A i \in 1..Len(c.rows) : SxInFluxPolytope(I.sx, c.rows[i]) # "no"
 \* reproducible for a fixed seed and process count: the same digest as every earlier call with these
 SampleReproducible(c, upto) ==
   \A j \in 1..upto : LET d == T.calls[j] IN
-     (d.P = c.P /\ d.seed = c.seed /\ d.n = c.n /\ d.thin = c.thin /\ d.raises = "none") => d.digest = c.digest
+     (d.P = c.P /\ d.seed = c.seed /\ d.n = c.n /\ d.thin = c.thin /\ d.rounds = c.rounds /\ d.raises = "none") => d.digest = c.digest
 ChainsOnce(c) ==
-  /\ \A idx \in 0..(c.P - 1) : Count(c, "b", {idx}, "-") = 1 /\ Count(c, "f", {idx}, "-") = 1
+  /\ \A idx \in 0..(c.P - 1) : Count(c, "b", {idx}, "-") = c.rounds /\ Count(c, "f", {idx}, "-") = c.rounds
   /\ EvTasks(c, "-") = {{idx} : idx \in 0..(c.P - 1)}
 ChainSeeds(c) ==
   \A x \in EvIdx(c) : Ev(c, x).e = "b" => Ev(c, x).vals = <<c.seed + Ev(c, x).task[1]>>
 \* the chains are different walks: no two of the P blocks of rows are identical
 ChainsDiffer(c) ==
   LET m == (c.n + c.P - 1) \div c.P blk(a) == SubSeq(c.rows, (a - 1) * m + 1, a * m) IN
-  (Len(c.rows) = c.P * m /\ m > 0) => \A a, b \in 1..c.P : a # b => blk(a) # blk(b)
+  (Len(c.rows) >= c.P * m /\ m > 0) => \A a, b \in 1..c.P : a # b => blk(a) # blk(b)      \* (the first call's rows)
 
 \* ---------------------------------------------------------------- verdict of one call
 Observed == T.ev # "none"
